@@ -16,12 +16,39 @@ func GenPorts(rt *rapid.T) []PortSpec {
 	return append([]PortSpec(nil), perm[:n]...)
 }
 
+// OtherPorts returns the ports of the alphabet that are not in used (all of them if none is left).
+func OtherPorts(used []PortSpec) []PortSpec {
+	var out []PortSpec
+	for _, p := range portAlphabet {
+		taken := false
+		for _, u := range used {
+			if u == p {
+				taken = true
+			}
+		}
+		if !taken {
+			out = append(out, p)
+		}
+	}
+	if len(out) == 0 {
+		return append([]PortSpec(nil), portAlphabet...)
+	}
+	if len(out) > 2 {
+		out = out[:2]
+	}
+	return out
+}
+
 func GenSelector(rt *rapid.T) map[string]string {
-	switch rapid.IntRange(0, 5).Draw(rt, "selK") {
+	// few distinct selectors, so that Local-policy services often have identical ones (and may share an address);
+	// one of them has several labels (whatever is derived from a selector must not depend on map order)
+	switch rapid.IntRange(0, 7).Draw(rt, "selK") {
 	case 0:
 		return nil
 	case 1, 2, 3:
 		return map[string]string{"app": "a"}
+	case 4, 5:
+		return map[string]string{"app": "a", "tier": "web", "zone": "z1", "rel": "stable"}
 	default:
 		return map[string]string{"app": "b"}
 	}
